@@ -104,14 +104,12 @@ impl FunctionExpression for DecodeLz4Fn {
             .map_resolve_with_default(ctx, || DEFAULT_PREPENDED_SIZE.clone())?
             .try_boolean()?;
 
-        let buffer_size: usize;
-        if let Ok(sz) = u32::try_from(buf_size) {
-            buffer_size = sz as usize;
-        } else {
-            // If the buffer size is too large, we default to a maximum size
-            buffer_size = usize::MAX;
-        }
-        decode_lz4(value, buffer_size, prepended_size)
+        // A negative or absurdly large size cannot be allocated (`Vec::with_capacity(usize::MAX)`
+        // panics with "capacity overflow"): report it as an error.
+        let Ok(buffer_size) = u32::try_from(buf_size) else {
+            return Err(format!("buf_size must be between 0 and {}", u32::MAX).into());
+        };
+        decode_lz4(value, buffer_size as usize, prepended_size)
     }
 
     fn type_def(&self, _: &state::TypeState) -> TypeDef {
